@@ -123,6 +123,10 @@ type Runner struct {
 	inSource     bool
 	handlingTrap bool // whether we're currently in a trap callback
 
+	// trapEntryExit is the exit status at the time the current trap callback
+	// was entered, which is what a bare "exit" inside the trap uses.
+	trapEntryExit exitStatus
+
 	// track if a sourced script set positional parameters
 	sourceSetParams bool
 
